@@ -1,3 +1,5 @@
 //! Per-algorithm oracles on abstract indices and the macros that instantiate
 //! them on each encoding (shared by the per-property binaries and by C07).
 pub mod scc;
+pub mod trav;
+pub mod paths;
